@@ -8,6 +8,7 @@ let areas : (string list -> string option) list = [
   D_c20.run_case;
   D_c11.run_case;
   D_c12.run_case;
+  D_pkt.run_case;
 ]
 
 let run_case toks =
